@@ -44,6 +44,9 @@ def deductive(rep: Report, prop: str, funcs: list[str], contracts_mod: str, incl
             continue
         rep.functions.append(q)
         n_rel = 0
+        func_props = set(c.props)
+        for v in tags.values():
+            func_props |= set(v)
         for ob in r.obligations:
             lab = label_of(ob.oid)
             if ob.kind in ALWAYS_C01:
@@ -54,7 +57,9 @@ def deductive(rep: Report, prop: str, funcs: list[str], contracts_mod: str, incl
                 props = set(c.props)
             aux = ob.kind in AUX_KINDS
             if aux and ob.kind != "PRE":
-                relevant = prop in c.props or prop in props
+                # auxiliary obligations (invariants, covers) carry every clause of the function: they belong to every
+                # property some clause of the function serves
+                relevant = prop in func_props or prop in props
             else:
                 relevant = prop in props
             if select is not None:
